@@ -124,7 +124,12 @@ def check(ctx):
         return [f] + [h for h in an.reachable_fns([f]) if h is not f and h.name not in KNOWN_NAMES and h.node is not None]
     for f in fns:
         found = []
+        own_nodes = {id(y) for y in ast.walk(f.node)}
         for x in (y for h in with_helpers(f) for y in ast.walk(h.node)):
+            if id(x) not in own_nodes and not (isinstance(x, ast.Call) and isinstance(x.func, ast.Attribute)
+                                               and x.func.attr in ("partition", "rpartition", "split", "rsplit", "join")) \
+                    and not (isinstance(x, ast.BinOp) and isinstance(x.op, ast.Add)):
+                continue        # in helpers only the structural path operations count, not the text of messages
             if isinstance(x, ast.Call) and isinstance(x.func, ast.Attribute) and x.func.attr in ("partition", "rpartition", "split", "rsplit") \
                     and x.args and isinstance(x.args[0], ast.Constant):
                 found.append((x.func.attr, x.args[0].value))
